@@ -212,6 +212,7 @@ inductive Refusal where
   | nargs       -- number of actual ≠ number of formal arguments
   | loopVarActual -- a formal used as DO variable whose actual is not a plain scalar variable
   | arrayExpr   -- array formal, actual is neither a Reference nor a Literal
+  | unknownType -- array formal, actual `a(…)` has an index that is an operation / call: its type is unknown
   | rank        -- array formal, actual of different rank
   | stride      -- array section with non-unit stride
   deriving DecidableEq, Repr, Inhabited
@@ -225,13 +226,28 @@ def unitStride : Actual → Bool
   | .sec1 _ _ u | .sec2 _ _ _ u | .col _ _ _ u | .row _ _ _ u => u
   | _ => true
 
+/-- an index expression whose type `ArrayMixin._get_effective_shape` cannot query (an `Operation` or a
+`Call`; literals, variables and array elements are fine) -/
+def opExpr : Expr → Bool
+  | .un .. | .bin .. => true
+  | _ => false
+
+/-- `actual_arg.datatype` is `UnresolvedType`: some (non-Range) index of `a(…)` is an operation -/
+def opIndexed : Actual → Bool
+  | .elem1 _ i => opExpr i
+  | .elem2 _ i j => opExpr i || opExpr j
+  | .col _ _ j _ => opExpr j
+  | .row _ i _ _ => opExpr i
+  | _ => false
+
 /-- the per-argument loop at the end of `validate` (only array formals are checked) -/
 def checkArg (p : Param) (a : Actual) : Option Refusal :=
   if p.rank = 0 then none else
   match a with
   | .expr (.lit _) => some .rank
   | .expr _ => some .arrayExpr
-  | a => if p.rank ≠ actualRank a then some .rank
+  | a => if opIndexed a then some .unknownType
+         else if p.rank ≠ actualRank a then some .rank
          else if unitStride a then none else some .stride
 
 def checkArgs : List Param → List Actual → Option Refusal
